@@ -54,6 +54,31 @@ CLAIMS = {
         note="Coq kernel (closed theorems); translators; Python binary64 log2 beyond the checked range is assumed.",
         technique="Rocq/Coq proof (induction on accumulator/added words, Z.log2_up spec) + differential correspondence",
     ),
+    "C11": dict(
+        category="proof",
+        text="Coq theorems: for EVERY well-formed dense model the generated logic_net runs without out-of-bounds index, "
+             "uninitialised read or write to the input (exec = Some) and fills out; a verified checker safe_check (sound for all "
+             "inputs and word sizes because success of the interpreter is value-independent) is evaluated in the kernel on the "
+             "parsed emitted text of every sampled dense/conv2d/conv3d/pool/mixed model; the wrapper's index extents are proved "
+             "for every number of words; exec is a function (no UB/unspecified order in the fragment). Supported by ASan/UBSan "
+             "standalone builds at -O0/-O2 (gcc, clang) and cross-optimisation-level output comparison.",
+        design_ref="DESIGN.md section 6 C11",
+        note="Coq kernel (closed theorems); strict C parser; compilers trusted on the fragment; large predefined architectures only "
+             "through the unverified Python mirror; stack exhaustion and signed-shift UB excluded (see DESIGN).",
+        technique="Rocq/Coq proof (interpreter that fails on unsafe access; forall-model theorem for dense, verified per-program checker otherwise) + sanitizer runs",
+    ),
+    "C13": dict(
+        category="proof",
+        text="Coq theorems with the random draws universally quantified (every permutation = every seed): dense 'unique' wiring has "
+             "a<b<n, no repeated pair, exactly out_dim pairs, and infeasible sizes are rejected; dense 'random' wiring is in range "
+             "and covers every input when 2*out_dim >= in_dim; conv 'random-unique' pairs are distinct with i<j<P and distinct "
+             "positions; tree levels are full binary (left++right is a permutation of the level's nodes). The hand-written model is "
+             "tied by exact equality with layer.indices / kernel_pairs of real constructors under recorded draws.",
+        design_ref="DESIGN.md section 6 C13",
+        note="Coq kernel (closed theorems); torch.randperm/randint return permutations / in-range values (trusted); the slice-level "
+             "mirror of get_unique_connections equals the closed form by kernel computation for in_dim <= 24 (bounded).",
+        technique="Rocq/Coq proof (Permutation/NoDup reasoning over a model parameterised by the draws) + exact differential correspondence",
+    ),
 }
 
 NOT_YET = "not yet built in this revision of /verif (work in progress; see DESIGN.md section 9 build order)"
